@@ -27,10 +27,14 @@ var (
 	seqUniverse = []string{"0", "1", "2", "65535", "65536", "-1", "x"}
 	b64Universe = []string{"aGVsbG8=", "aGVsbG8gd29ybGQ=", "", "AAAA", "!!!!", "aGVsbG8", "QQ==", strings.Repeat("QUFB", 700),
 		"====", "=", "A===", "==QQ", "QUJDQUJD========", "QQ======", "QUJD=", " QUJD ", "QUJD\nQUJD"}
-	fromUniverse = []string{peerFull, "juliet@example.com", remoteAddr, roomMe, roomBare, roomBare + "/other", localAddr, localAddr + "/res", ""}
-	msgTypes     = []string{"", "normal", "chat", "chat", "normal", "groupchat", "headline", "error"}
-	queryIDs     = []string{"q1", "q1", "q2", ""}
-	rcptIDs      = []string{"r1", "r1", "r2", ""}
+	fromUniverse = []string{peerFull, "juliet@example.com", remoteAddr, roomMe, roomBare, roomBare + "/other", localAddr, localAddr + "/res", "",
+		// valid addresses that are not in canonical form: parts that get shorter
+		// (fullwidth, decomposed, KELVIN SIGN) or change case under normalisation
+		"\uff52\uff4f\uff4d\uff45\uff4f@example.net/orchard", "rene\u0301@example.net", "\uff2a\uff35\uff2c\uff29\uff25\uff34@EXAMPLE.com/Balcony", "\u212aelvin@example.net/x",
+		"e\u0301e\u0301e\u0301e\u0301@example.net/r", "romeo@\uff45\uff58\uff41\uff4d\uff50\uff4c\uff45.net/e\u0301", "\uff52@example.net"}
+	msgTypes = []string{"", "normal", "chat", "chat", "normal", "groupchat", "headline", "error"}
+	queryIDs = []string{"q1", "q1", "q2", ""}
+	rcptIDs  = []string{"r1", "r1", "r2", ""}
 )
 
 const forwardedMsg = `<forwarded xmlns="urn:xmpp:forward:0"><delay xmlns="urn:xmpp:delay" stamp="2010-07-10T23:08:25Z">d</delay><message xmlns="jabber:client" from="juliet@capulet.example/balcony" to="romeo@montague.example/garden" type="chat"><body>What man art thou</body><thread>0e3141cd</thread></message></forwarded>`
